@@ -166,23 +166,23 @@ def DSt.env (d : DSt) : Env := { deadH := fun x => d.deadH.contains x }
 
 def showPop (d : DSt) : String :=
   let objs := (List.range d.n).flatMap (fun o =>
-    match d.st.h o with
+    match d.st.h.get o with
     | .inst fs => fs.filterMap (fun f =>
-        let ns := d.st.H (.trait o f.name)
+        let ns := d.st.H.get (.trait o f.name)
         if ns.isEmpty then none else some s!"{o}.{nameOf f.name}={showNotifiers ns}")
     | _ => [])
   let cs := d.conts.filterMap (fun c =>
-    match d.st.h c with
+    match d.st.h.get c with
     | .junk => none
     | .inst _ => none
     | _ =>
-      let ns := d.st.H (.cont c)
+      let ns := d.st.H.get (.cont c)
       if ns.isEmpty then none else some s!"{c}={showNotifiers ns}")
   " ".intercalate (objs ++ cs)
 
 /-- Probe: every Int trait of every pool object is read, then incremented. -/
 def probeFields (d : DSt) (o : Id) : List Name :=
-  match d.st.h o with
+  match d.st.h.get o with
   | .inst fs => fs.filterMap (fun f => match f.dflt with
     | .val (.int _) => some f.name
     | _ => none)
@@ -209,22 +209,6 @@ def probe (d : DSt) : DSt × List String :=
     (probeFields acc.1 o).foldl (fun (acc : DSt × List String) n =>
       let r := probeOne acc.1 o n
       (r.1, acc.2 ++ r.2)) acc) (d, [])
-
-/-- Re-tabulate heap and hooks so that lookups do not walk a chain of updates. -/
-def compact (d : DSt) : DSt :=
-  let maxId := (d.conts.foldl max 0) + 2
-  let bound := max maxId (d.n + 1)
-  let harr := ((List.range bound).map d.st.h).toArray
-  let nn := names.length
-  let tarr := ((List.range (d.n * nn)).map (fun i => d.st.H (.trait (i / nn) (i % nn)))).toArray
-  let carr := ((List.range bound).map (fun c => d.st.H (.cont c))).toArray
-  let oldh := d.st.h
-  let oldH := d.st.H
-  let h : Heap := fun i => if i < bound then harr.getD i .junk else oldh i
-  let H : Hooks := fun ob => match ob with
-    | .trait o n => if o < d.n && n < nn then tarr.getD (o * nn + n) [] else oldH ob
-    | .cont c => if c < bound then carr.getD c [] else oldH ob
-  { d with st := ⟨h, H⟩ }
 
 def runMuts (d : DSt) : List Mutation → DSt × List Delivered × Option Exc
   | [] => (d, [], none)
@@ -253,9 +237,9 @@ def stepOp (d : DSt) (op : Op) : DSt × String :=
       let r := observe d.st.h hd root rm e d.st.H
       ({ d with st := ⟨d.st.h, r.H⟩ }, [], status r.err)
     | .kill hd => ({ d with deadH := hd :: d.deadH }, [], "ok")
-  let d2 := compact d1
+  let d2 := d1
   let (d3, ps) := probe d2
-  let d4 := compact d3
+  let d4 := d3
   let dstr := " ".intercalate (sortStrs (ds.map showDelivered))
   let pstr := " ".intercalate (sortStrs ps)
   (d4, stat ++ " D{" ++ dstr ++ "} P{" ++ pstr ++ "} N{" ++ showPop d4 ++ "}")
@@ -271,8 +255,7 @@ def initFields (childDflt : Val) : List Field :=
    ⟨7, false, .val .undef, .unset⟩]
 
 def initHeap (dflts : List Val) : Heap :=
-  let arr := (dflts.map (fun d => Obj.inst (initFields d))).toArray
-  fun i => arr.getD i .junk
+  dflts.zipIdx.map (fun p => (p.2, Obj.inst (initFields p.1)))
 
 def runOps : DSt → List Op → List String
   | _, [] => []
